@@ -196,7 +196,9 @@ func runAt(feature xmpp.StreamFeature, cfg clientCfg, location, origin jid.JID, 
 		return "", nil
 	})
 	features := []xmpp.StreamFeature{feature}
-	if cfg.others && cfg.scram {
+	if sharedFeatures != nil {
+		features = sharedFeatures // the application's own slice, the same for every session
+	} else if cfg.others && cfg.scram {
 		features = append(features, xmpp.SASL("", "secret", sasl.ScramSha256), xmpp.BindResource())
 	} else if cfg.others {
 		features = append(features, xmpp.SASL("", "secret", sasl.Plain), xmpp.BindResource())
@@ -494,6 +496,75 @@ func sharedConfigBody(c *nd.Ctx) nd.Result {
 	return res
 }
 
+// sharedFeatures, if set, is the one features slice (same backing array) that
+// every session's configuration function returns.
+var sharedFeatures []xmpp.StreamFeature
+
+// sharedSliceBody: an application keeps one slice [StartTLS, SASL, bind] and
+// hands it to every session it opens (a reconnecting client). A first session
+// runs to the end (TLS, authentication, binding) or stops at some answer; the
+// next session made from the very same slice must behave exactly like a
+// session made from a fresh slice with the same features: what the library
+// does with the slice during one negotiation is not the next session's business.
+func sharedSliceBody(c *nd.Ctx) nd.Result {
+	firstList := c.Choose(len(firstLists), "first-session-features")
+	firstAnswer := c.Choose(len(answers), "first-session-answer")
+	list := c.Choose(len(firstLists), "second-session-features")
+	answer := c.Choose(len(answers), "second-session-answer")
+	scram := c.Choose(2, "scram-only") == 1
+	mkTLS := func() xmpp.StreamFeature {
+		return xmpp.StartTLS(&tls.Config{RootCAs: tlspeer.Roots(), ServerName: "example.com", MinVersion: tls.VersionTLS12})
+	}
+	mkSlice := func() []xmpp.StreamFeature {
+		m := sasl.Plain
+		if scram {
+			m = sasl.ScramSha256
+		}
+		return []xmpp.StreamFeature{mkTLS(), xmpp.SASL("", "secret", m), xmpp.BindResource()}
+	}
+	cfg := clientCfg{explicitTLS: true, others: true, scram: scram}
+	origin := jid.MustParse("me@example.com/r")
+	desc := fmt.Sprintf("one features slice [StartTLS, SASL, bind] for two sessions: first session list=%s answer=%s, second session list=%s answer=%s, scram-only=%v", firstLists[firstList].name, answers[firstAnswer].name, firstLists[list].name, answers[answer].name, scram)
+	c.Note("%s", desc)
+	res := nd.Result{Outcome: "error", NonTrivial: desc}
+	defer func() { sharedFeatures = nil }()
+	sharedFeatures = mkSlice()
+	first := run(sharedFeatures[0], cfg, origin, firstList, firstAnswer)
+	obs := run(sharedFeatures[0], cfg, origin, list, answer)
+	sharedFeatures = mkSlice()
+	base := run(sharedFeatures[0], cfg, origin, list, answer)
+	fail := func(sig, f string, a ...any) nd.Result {
+		res.Violation = &nd.Violation{Sig: sig, Msg: desc + fmt.Sprintf(" [first session: outcome=%s; second: outcome=%s err=%q state=%v handshaken=%v pre-TLS bytes=%q]: ", first.outcome, obs.outcome, obs.err, obs.state, obs.handshaken, obs.preTLS) + fmt.Sprintf(f, a...)}
+		return res
+	}
+	for _, o := range []observation{first, obs, base} {
+		if o.panic != nil {
+			return fail("starttls:"+o.panic.Sig(), "panic %s\n%s", o.panic.Value, o.panic.Stack)
+		}
+	}
+	res.Outcome = obs.outcome
+	if ok, why := preTLSOK(obs.preTLS); !ok {
+		return fail("cleartext:sent-more-than-header-and-starttls:shared-slice", "%s", why)
+	}
+	if obs.outcome == "ready-insecure" || obs.outcome == "other" {
+		return fail("cleartext:ready-without-tls:shared-slice", "the session was established without a TLS layer")
+	}
+	if obs.outcome != base.outcome || obs.tlsStarted != base.tlsStarted || normalise(obs.preTLS) != normalise(base.preTLS) {
+		return fail("shared-slice:later-session-differs", "a session made from a fresh slice: outcome=%s tls-started=%v err=%q pre-TLS bytes=%q", base.outcome, base.tlsStarted, base.err, base.preTLS)
+	}
+	var a, b []string
+	for _, x := range base.app {
+		a = append(a, normalise(x))
+	}
+	for _, x := range obs.app {
+		b = append(b, normalise(x))
+	}
+	if strings.Join(a, "") != strings.Join(b, "") {
+		return fail("shared-slice:later-session-differs:protected-bytes", "with a fresh slice the TLS endpoint received %q, with the shared one %q", a, b)
+	}
+	return res
+}
+
 var _ = stanza.NSClient
 
 func init() {
@@ -509,6 +580,7 @@ func init() {
 				{Name: "scenarios", Body: scenarioBody, CutDepth: 3, Budget: b},
 				{Name: "history", Body: historyBody, CutDepth: 2, Budget: b, Workers: 4},
 				{Name: "shared-config", Desc: "one Negotiator value that configures sessions by their address, two overlapping sessions", Body: sharedConfigBody, CutDepth: 2, Budget: b, Workers: 4},
+				{Name: "shared-slice", Desc: "one features slice [StartTLS, SASL, bind] handed to two consecutive sessions; the second is compared with a session made from a fresh slice", Body: sharedSliceBody, CutDepth: 2, Budget: b},
 			}
 		},
 	})
